@@ -163,6 +163,9 @@ func (eng *Engine) resolveType(s string) (types.Type, error) {
 		}
 		return types.NewArray(t, n), nil
 	}
+	if s == "struct{}" {
+		return types.NewStruct(nil, nil), nil
+	}
 	if s == "byte" {
 		s = "uint8"
 	}
